@@ -2,13 +2,18 @@ import Hive.Base.Proto
 import Hive.Gen.C19_SafeMath
 open Hive.Proto Hive.GoInt Hive.Gen.SafeMath
 
+/-- `parseTy` of GoInt.lean plus the defined 16-bit types of the harness. -/
+def parseTyC19 : String → Option IntTy
+  | "du16" => some .u16 | "di16" => some .i16
+  | k => parseTy k
+
 /-- Evaluates the definitions generated from safe_math.go and the Go operator semantics. -/
 def stepC19 (_ : Unit) (toks : List String) : Unit × String :=
   let int? (s : String) : Option Int := s.toInt?
   let out : String :=
     match toks with
     | ["safe", op, k, x, y] =>
-      match parseTy k, int? x, int? y with
+      match parseTyC19 k, int? x, int? y with
       | some T, some x, some y =>
         match op with
         | "add" => showRes (SafeAdd T x y)
@@ -19,7 +24,7 @@ def stepC19 (_ : Unit) (toks : List String) : Unit × String :=
         | _ => "bad-op"
       | _, _, _ => "bad-op"
     | ["raw", op, k, x, y] =>
-      match parseTy k, int? x, int? y with
+      match parseTyC19 k, int? x, int? y with
       | some T, some x, some y =>
         match op with
         | "add" => toString (T.add x y)
@@ -34,6 +39,17 @@ def stepC19 (_ : Unit) (toks : List String) : Unit × String :=
         | "toi64" => toString (IntTy.i64.wrap x)
         | "tou8" => toString (IntTy.u8.wrap x)
         | _ => "bad-op"
+      | _, _, _ => "bad-op"
+    | ["raw64", "mul", x, y] =>
+      match int? x, int? y with
+      | some x, some y => let p := mul64 x y; s!"{p.1} {p.2}"
+      | _, _ => "bad-op"
+    | ["raw64", "div", hi, lo, y] =>
+      match int? hi, int? lo, int? y with
+      | some hi, some lo, some y =>
+        match div64 hi lo y with
+        | none => "panic"
+        | some p => s!"{p.1} {p.2}"
       | _, _, _ => "bad-op"
     | ["mulu64", x, y] =>
       match int? x, int? y with
